@@ -44,6 +44,15 @@ class Prop:
     def check(self, case, trace, prof):  # property checker on an implementation trace: None or message
         return None
 
+    def correspond(self, cases, impl_traces, prof, model_fn):
+        """default tie: run the model on the whole case and compare projected traces"""
+        model = model_fn([c.line for c in cases])
+        out = []
+        for i, c in enumerate(cases):
+            if self.project(c, impl_traces[i], prof) != self.project(c, run.ints(model[i]), prof):
+                out.append((i, "implementation and model traces differ"))
+        return out
+
     def nontrivial(self, case, trace):
         return True
 
@@ -99,31 +108,25 @@ def write_replay(pid, name, obj):
 
 
 def run_cases(P, exes, drv, cases, model_ok=True, profs=("debug", "release")):
-    """returns per profile: (impl_traces, model_traces)"""
+    """implementation traces per profile"""
     lines = [c.line for c in cases]
-    res = {}
-    for prof in profs:
-        chk = prof == "debug"
-        impl = run.run_impl(exes[prof], lines)
-        model = run.run_model(drv, chk, lines) if model_ok else [None] * len(lines)
-        res[prof] = (impl, model)
-    return res
+    return {prof: run.run_impl(exes[prof], lines) for prof in profs}
 
 
-def evaluate(P, cases, res):
-    """compare + check; returns (mismatches, failures) as lists of (case_index, prof, detail)"""
+def evaluate(P, cases, res, drv, model_ok=True):
+    """check + correspond; returns (mismatches, failures) as lists of (case_index, prof, detail)"""
     mism, fails = [], []
     for prof in res:
-        impl, model = res[prof]
+        impl = res[prof]
+        traces = [run.ints(t) for t in impl]
         for i, c in enumerate(cases):
-            it = run.ints(impl[i])
-            msg = P.check(c, it, prof)
+            msg = P.check(c, traces[i], prof)
             if msg:
                 fails.append((i, prof, msg))
-            if model[i] is not None:
-                mt = run.ints(model[i])
-                if P.project(c, it, prof) != P.project(c, mt, prof):
-                    mism.append((i, prof, "implementation and model traces differ"))
+        if model_ok:
+            chk = prof == "debug"
+            for i, detail in P.correspond(cases, traces, prof, lambda lines: run.run_model(drv, chk, lines)):
+                mism.append((i, prof, detail))
     return mism, fails
 
 
@@ -136,7 +139,7 @@ def shrink_case(P, exes, drv, case, prof, mode, model_ok=True):
         if not cands:
             break
         res = run_cases(P, exes, drv, cands, model_ok, profs=(prof,))
-        mism, fails = evaluate(P, cands, res)
+        mism, fails = evaluate(P, cands, res, drv, model_ok)
         idxs = sorted(set(i for i, _, _ in (fails if mode == "fail" else mism)))
         if not idxs:
             break
@@ -190,13 +193,16 @@ def main(P, tier, replay=None):
     else:
         cases = corpus_cases(pid) + P.gen(tier, rng)
     res = run_cases(P, exes, drv, cases, model_ok)
-    mism, fails = evaluate(P, cases, res)
+    mism, fails = evaluate(P, cases, res, drv, model_ok)
     P.extra(ctx)
 
     if replay:
         for prof in ("debug", "release"):
-            print("[%s] impl : %s" % (prof, res[prof][0][0]))
-            print("[%s] model: %s" % (prof, res[prof][1][0]))
+            print("[%s] impl : %s" % (prof, res[prof][0]))
+            if model_ok:
+                print("[%s] model: %s" % (prof, run.run_model(drv, prof == "debug", [cases[0].line])[0]))
+        for i, prof, msg in mism:
+            print("[%s] correspondence: %s" % (prof, msg))
         for i, prof, msg in fails:
             print("[%s] property checker: %s" % (prof, msg))
 
@@ -223,12 +229,13 @@ def main(P, tier, replay=None):
                     known_printed.add(k)
                 continue
             r1 = run_cases(P, exes, drv, [c], model_ok)
-            _, f1 = evaluate(P, [c], r1)
+            _, f1 = evaluate(P, [c], r1, drv, model_ok)
+            m1 = {p_: (run.run_model(drv, p_ == "debug", [c.line])[0] if model_ok else None) for p_ in r1}
             path = write_replay(pid, k, {
                 "property": pid, "tier": tier, "seed": seed, "kind": "failing-input",
                 "case": {"line": c.line, "meta": c.meta},
                 "checker": [f for _, _, f in f1] or [msg],
-                "impl_trace": {p: r1[p][0][0] for p in r1}, "model_trace": {p: r1[p][1][0] for p in r1},
+                "impl_trace": {p: r1[p][0] for p in r1}, "model_trace": m1,
                 "replay_cmd": "bin/check %s --replay <this file>" % pid})
             violations.append((path, False))
     elif mism or ctx["open_obligations"]:
@@ -239,10 +246,11 @@ def main(P, tier, replay=None):
             i, prof, msg = min(mism, key=lambda f: len(cases[f[0]].line))
             c = shrink_case(P, exes, drv, cases[i], prof, "mism", model_ok)
             r1 = run_cases(P, exes, drv, [c], model_ok)
+            mm, _ = evaluate(P, [c], r1, drv, model_ok)
             what["correspondence"] = {"stream": P.family_doc, "profile": prof, "n_mismatching_cases": len(mism),
-                                      "case": {"line": c.line, "meta": c.meta},
-                                      "impl_trace": {p: r1[p][0][0] for p in r1},
-                                      "model_trace": {p: r1[p][1][0] for p in r1}}
+                                      "case": {"line": c.line, "meta": c.meta}, "detail": [d for _, _, d in mm] or [msg],
+                                      "impl_trace": {p: r1[p][0] for p in r1},
+                                      "model_trace": {p_: run.run_model(drv, p_ == "debug", [c.line])[0] for p_ in r1}}
             what["case"] = {"line": c.line, "meta": c.meta}
         path = write_replay(pid, "open-" + hashlib.sha1(json.dumps(what, sort_keys=True).encode()).hexdigest()[:10], what)
         violations.append((path, True))
@@ -250,7 +258,7 @@ def main(P, tier, replay=None):
     # ---- evidence ----
     distinct = set()
     for i, c in enumerate(cases):
-        tr = res["debug"][0][i]
+        tr = res["debug"][i]
         if P.nontrivial(c, run.ints(tr)):
             distinct.add(hashlib.sha1((c.line + "|" + tr).encode()).digest())
     nlem = audit.count_obligations(P.coq_targets)
@@ -269,7 +277,7 @@ def main(P, tier, replay=None):
             "distinct_nontrivial": len(distinct),
             "rule": P.nontrivial_rule,
             "samples": [{"case": cases[i].line[:400], "meta": cases[i].meta if len(json.dumps(cases[i].meta)) < 600 else "(large)",
-                         "impl_trace_debug": res["debug"][0][i][:400]} for i in sample_idx],
+                         "impl_trace_debug": res["debug"][i][:400]} for i in sample_idx],
             "input_histogram": P.histogram(cases),
             "mismatches": len(mism), "checker_failures": len(fails),
             "profiles": ["debug (overflow-checks on)", "release (overflow-checks off)"],
